@@ -117,6 +117,15 @@ func (r *Run) RunSharded(n int, cmdArgs []string) Coverage {
 			}
 		}
 		for k, v := range so.Cov {
+			if strings.HasSuffix(k, "@max") {
+				if f, ok := v.(float64); ok {
+					kk := strings.TrimSuffix(k, "@max")
+					if old, ok := merged[kk].(int); !ok || int(f) > old {
+						merged[kk] = int(f)
+					}
+				}
+				continue
+			}
 			if strings.HasSuffix(k, "@set") {
 				if sets[k] == nil {
 					sets[k] = map[string]bool{}
